@@ -6,6 +6,7 @@ import (
 
 	"github.com/zmap/zcrypto/x509"
 	"github.com/zmap/zcrypto/x509/ct"
+	"github.com/zmap/zlint/v3"
 	"github.com/zmap/zlint/v3/lint"
 )
 
@@ -288,6 +289,82 @@ func genBoundary(out *Output, rng *Rng, perLint int, cfg lint.Configuration) {
 				}
 			}
 		}
+	}
+	// whole runs: the same objects re-dated around every date of the registry and handed to the top-level entry points one
+	// after the other (same issuer, same serial number, same octets - only the date differs from the run before)
+	{
+		dateSet := map[int64]time.Time{}
+		for _, l := range g.CertificateLints().Lints() {
+			for _, d := range []time.Time{l.EffectiveDate, l.IneffectiveDate} {
+				if !d.IsZero() && d.Year() > 1990 {
+					dateSet[d.Unix()] = d
+				}
+			}
+		}
+		whole := 0
+		step := len(corpus.Certs)/(6*perLint) + 1
+		for k := 0; k < len(corpus.Certs); k += step {
+			cc := corpus.Certs[k]
+			for _, d := range dateSet {
+				for _, dl := range []time.Duration{0, -time.Second} {
+					c2 := *cc.Cert
+					c2.NotBefore = d.Add(dl)
+					var rs *zlint.ResultSet
+					func() {
+						defer func() { recover() }()
+						rs = zlint.LintCertificateEx(&c2, g)
+					}()
+					whole++
+					if rs == nil {
+						continue
+					}
+					for _, l := range g.CertificateLints().Lints() {
+						r := rs.Results[l.Name]
+						if r == nil || inWindowSpec(l.EffectiveDate, l.IneffectiveDate, c2.NotBefore) {
+							continue
+						}
+						if r.Status >= lint.Pass && r.Status <= lint.Error {
+							out.Violate("C03|finding-outside-window:whole-run:"+l.Name, fmt.Sprintf("LintCertificateEx reports %s for %s on %s re-dated to notBefore %s, outside the lint's window [%s, %s) (the run before had the same certificate dated %s)",
+								r.Status, l.Name, cc.File, c2.NotBefore.Format(time.RFC3339), l.EffectiveDate.Format("2006-01-02"), l.IneffectiveDate.Format("2006-01-02"), d.Format(time.RFC3339)),
+								map[string]interface{}{"lint": l.Name, "file": cc.File, "notBefore": c2.NotBefore.String()}, "NE", r.Status.String())
+							break
+						}
+					}
+				}
+			}
+		}
+		for k, cc := range corpus.CRLs {
+			if k%3 != 0 {
+				continue
+			}
+			for _, l0 := range g.RevocationListLints().Lints() {
+				for _, d := range []time.Time{l0.EffectiveDate, l0.IneffectiveDate} {
+					if d.IsZero() {
+						continue
+					}
+					for _, dl := range []time.Duration{0, -time.Second} {
+						c2 := *cc.CRL
+						c2.ThisUpdate = d.Add(dl)
+						var rs *zlint.ResultSet
+						func() {
+							defer func() { recover() }()
+							rs = zlint.LintRevocationListEx(&c2, g)
+						}()
+						whole++
+						if rs == nil {
+							continue
+						}
+						for _, l := range g.RevocationListLints().Lints() {
+							if r := rs.Results[l.Name]; r != nil && !inWindowSpec(l.EffectiveDate, l.IneffectiveDate, c2.ThisUpdate) && r.Status >= lint.Pass && r.Status <= lint.Error {
+								out.Violate("C03|finding-outside-window:whole-run:"+l.Name, fmt.Sprintf("LintRevocationListEx reports %s for %s on %s re-dated to thisUpdate %s, outside the lint's window", r.Status, l.Name, cc.File, c2.ThisUpdate.Format(time.RFC3339)),
+									map[string]interface{}{"lint": l.Name, "file": cc.File, "thisUpdate": c2.ThisUpdate.String()}, "NE", r.Status.String())
+							}
+						}
+					}
+				}
+			}
+		}
+		out.Stats["boundary_whole_runs"] = whole
 	}
 	out.Stats["boundary_runs"] = n
 	out.Stats["boundary_outside"] = outside
